@@ -87,6 +87,18 @@ theorem runBatches_pure {R St : Type} (task : Nat → St → R × St) (s0 : St)
       simp only [List.map_cons, List.flatten_cons, ih, runBatch_pure task s0 hp b s0]
       simp [execute]
 
+theorem lookup_runBatch_pure {R St : Type} (task : Nat → St → R × St) (s0 : St)
+    (hp : ∀ i s s', (task i s).1 = (task i s').1) (sched : List Nat) (s : St) (i : Nat) (hi : i ∈ sched) :
+    (runBatch task s sched).lookup i = some (task i s0).1 := by
+  rw [runBatch_pure task s0 hp sched s, lookup_execute, if_pos hi]
+
+theorem storedEstimates_pure {D E St : Type} (est : D → St → E × St) (s0 : St)
+    (hp : ∀ d s s', (est d s).1 = (est d s').1) (ds : List D) :
+    ∀ s, storedEstimates est s ds = ds.map fun d => (est d s0).1 := by
+  induction ds with
+  | nil => intro s; rfl
+  | cons d ds ih => intro s; simp [storedEstimates, ih, hp d s s0]
+
 /-! ## the check's quantifier structure -/
 
 theorem rowsPass_spec (f : Verdict → Bool) (k : Nat) (rs : List (List Verdict))
